@@ -7,6 +7,7 @@
 package main
 
 import (
+	"regexp"
 	"encoding/base64"
 	"fmt"
 	"io"
@@ -132,6 +133,45 @@ func main() {
 		rep.Violate("broken-correspondence", "driver", err.Error(), nil)
 		rep.Finish()
 	}
+	// third batch: the octet-level reader of Model/Mime on every fetched message text (Props.C02.tree_as_written /
+	// message_as_written): is the text in the image of the model's writer, do the theorem's side conditions hold for it, which
+	// shape does a reader see, and what is the body of the leaf at every section path
+	var ops3 []string
+	idx3 := map[int]int{}
+	for i, p := range ps {
+		if p.kind != "main" {
+			continue
+		}
+		if its := sx.FetchItems(parsed[i]); len(its) == 1 && its[0]["BODY[]"] != nil {
+			idx3[p.seq] = len(ops3)
+			ops3 = append(ops3, "mm.observe "+hx.H(its[0]["BODY[]"].Str()))
+		}
+	}
+	obs, err := hx.RunModel(o.Driver, ops3)
+	if err != nil {
+		rep.Violate("broken-correspondence", "driver", err.Error(), nil)
+		rep.Finish()
+	}
+	type seen struct {
+		fresh, image bool
+		shape        string
+		leaf         map[string]string
+	}
+	seenOf := map[int]*seen{}
+	for seq, k := range idx3 {
+		f := strings.Fields(obs[k])
+		if len(f) < 4 || f[0] != "ok" {
+			seenOf[seq] = nil
+			continue
+		}
+		sn := &seen{fresh: f[1] == "fresh=true", image: f[2] == "image=true", shape: strings.TrimPrefix(f[3], "shape="), leaf: map[string]string{}}
+		for _, lf := range f[4:] {
+			if kv := strings.SplitN(lf, ":", 2); len(kv) == 2 {
+				sn.leaf[kv[0]] = hx.UnH(kv[1])
+			}
+		}
+		seenOf[seq] = sn
+	}
 	classes := map[string]int{}
 	for i, p := range ps {
 		rep.Case(p.tok+" "+p.cmd, p.kind != "main")
@@ -161,6 +201,33 @@ func main() {
 				rep.Violate("broken-correspondence", "BODY[HEADER]/BODY[TEXT] vs Model/Split", fmt.Sprintf("message %s: server splits after %d octets, model after %d", p.tok, len(hdr), len(hx.UnH(m[0]))), []string{"msg " + hx.H(p.text)})
 			}
 			envelope(p, it["ENVELOPE"], viol)
+			if p.msg.Multi {
+				sn, asked := seenOf[p.seq]
+				switch {
+				case !asked:
+				case sn == nil:
+					rep.Violate("broken-correspondence", "BODY[] vs Model/Mime (reader)", fmt.Sprintf("message %s: the octet-level reader of the model cannot take the fetched text apart", p.tok), []string{"msg " + hx.H(p.text)})
+				default:
+					if !sn.image {
+						rep.Violate("broken-correspondence", "BODY[] vs Model/Mime (writer)", fmt.Sprintf("message %s: the fetched text is not what the model's writer produces from the parts a reader finds in it (delimiter lines, closing delimiter, line ends)", p.tok), []string{"msg " + hx.H(p.text)})
+					}
+					if sn.fresh {
+						rep.Hit("mime:side-condition-holds")
+					} else {
+						rep.Hit("mime:side-condition-fails")
+					}
+					// the shape a reader of BODY[] sees is the shape BODYSTRUCTURE announces and the shape that was submitted
+					want := shapeOfNode(p.msg)
+					if got := shapeOfDigest(sn.shape); got != want {
+						viol("shape", fmt.Sprintf("a reader of BODY[] finds the parts %s, submitted were %s (octet-level reader, Props.C02.message_as_written; side condition holds: %v)", got, want, sn.fresh))
+					}
+					if bs := it["BODYSTRUCTURE"]; bs != nil {
+						if got := shapeOfBS(bs); got != shapeOfDigest(sn.shape) {
+							rep.Violate("broken-correspondence", "BODYSTRUCTURE vs Model/Mime (reader)", fmt.Sprintf("message %s: BODYSTRUCTURE announces the shape %s, the model's reader finds %s in BODY[]", p.tok, got, shapeOfDigest(sn.shape)), []string{"msg " + hx.H(p.text)})
+						}
+					}
+				}
+			}
 		case "path":
 			val := it["BODY["+strings.ToUpper(p.path)+"]"]
 			m := model[idx2[i]]
@@ -215,6 +282,16 @@ func main() {
 					viol("size", fmt.Sprintf("part %s: BODYSTRUCTURE announces %d octets, BODY[%s] returns %d", p.path, size, p.path, len(got)))
 				}
 			}
+			// BODY[p] is the part a reader of BODY[] finds at p (up to the line end in front of the next delimiter)
+			if sn := seenOf[p.seq]; sn != nil && p.msg.Multi {
+				if inText, ok := sn.leaf[p.path]; ok {
+					if got != inText && got != inText+"\r\n" && !sameUnfolded(got, inText, enc) {
+						viol("body-vs-section", fmt.Sprintf("part %s: BODY[%s] returns %d octets, the part at %s of BODY[] has %d octets", p.path, p.path, len(got), p.path, len(inText)))
+					} else {
+						rep.Hit("mime:section-is-part-of-text")
+					}
+				}
+			}
 			dec := decode(got, enc)
 			if !same(dec, string(leaf.Content)) {
 				viol("content", fmt.Sprintf("part %s (announced encoding %q): decoded BODY[%s] is not the submitted content: %d vs %d octets", p.path, enc, p.path, len(dec), len(leaf.Content)))
@@ -246,6 +323,53 @@ func main() {
 		rep.Sample(ps[0].cmd)
 		rep.Sample(ps[1].cmd)
 	}
+	// ---- the same decoded content in one encoding, folded differently (76 / 60 / 40 columns): single-part messages above the
+	// out-of-line threshold; the announced size is the size of what BODY[] returns, whichever text the store hands out ----
+	if o.Replay == "" {
+		payload := []byte(strings.Repeat("The same decoded content in every one of these messages. ", 40))
+		enc := base64.StdEncoding.EncodeToString(payload)
+		fold := func(cols int) string {
+			var sb strings.Builder
+			for i := 0; i < len(enc); i += cols {
+				j := i + cols
+				if j > len(enc) {
+					j = len(enc)
+				}
+				sb.WriteString(enc[i:j] + "\r\n")
+			}
+			return sb.String()
+		}
+		for k, cols := range []int{76, 60, 40, 76} {
+			tok := fmt.Sprintf("c14fold%d", k)
+			msg := "From: Sender Name <sender@example.org>\r\nTo: rcpt@example.com\r\nSubject: " + tok + "\r\nMIME-Version: 1.0\r\nContent-Type: application/octet-stream\r\nContent-Transfer-Encoding: base64\r\n\r\n" + fold(cols)
+			if !c.Append("INBOX", "", msg).OK() {
+				continue
+			}
+			c.Cmd("SELECT INBOX")
+			seq := ""
+			for _, l := range c.Cmd("SEARCH SUBJECT " + tok).Untagged {
+				if f := strings.Fields(l); len(f) >= 3 {
+					seq = f[len(f)-1]
+				}
+			}
+			if seq == "" {
+				continue
+			}
+			rep.Case("fold|"+tok, true)
+			r := c.Cmd("FETCH " + seq + " (RFC822.SIZE BODY.PEEK[])")
+			raw := strings.Join(r.Untagged, "\n")
+			ms := regexp.MustCompile(`RFC822\.SIZE (\d+)`).FindStringSubmatch(raw)
+			ml := regexp.MustCompile(`BODY\[\] \{(\d+)\}`).FindStringSubmatch(raw)
+			if ms == nil || ml == nil {
+				rep.Violate("impl-violation", "attribute agreement (Props.C14)", fmt.Sprintf("message %s: FETCH (RFC822.SIZE BODY.PEEK[]) did not return both items: %q", tok, clip(raw, 160)), []string{"msg " + hx.H(msg)})
+				continue
+			}
+			if ms[1] != ml[1] {
+				rep.Violate("impl-violation", "attribute agreement (Props.C14.size_is_sum: RFC822.SIZE = length of BODY[])", fmt.Sprintf("message %s (single part, base64 folded at %d columns, the same decoded content as earlier messages): RFC822.SIZE %s but BODY[] has %s octets", tok, cols, ms[1], ml[1]), []string{"msg " + hx.H(msg)})
+			}
+			rep.Hit("fold:size-checked")
+		}
+	}
 	// ---- ENVELOPE address lists over generated address fields ----
 	if o.Replay == "" {
 		ne := 150
@@ -255,6 +379,56 @@ func main() {
 		envelopeStream(o, rep, w, rng.Fork(), ne)
 	}
 	rep.Finish()
+}
+
+// shapes: "(L L (L L))" — nesting and number of parts only
+func shapeOfNode(n *mimegen.Node) string {
+	if !n.Multi {
+		return "L"
+	}
+	var cs []string
+	for _, c := range n.Children {
+		cs = append(cs, shapeOfNode(c))
+	}
+	return "(" + strings.Join(cs, " ") + ")"
+}
+
+var reLB = regexp.MustCompile(`[LB][0-9-]+`)
+
+func shapeOfDigest(d string) string {
+	d = strings.ReplaceAll(d, ",", " ")
+	return reLB.ReplaceAllStringFunc(d, func(m string) string {
+		if m[0] == 'L' {
+			return "L"
+		}
+		return ""
+	})
+}
+
+func shapeOfBS(bs *sx.V) string {
+	if bs == nil || bs.Kind != "list" || len(bs.L) == 0 {
+		return "?"
+	}
+	if bs.L[0].Kind != "list" {
+		return "L"
+	}
+	var cs []string
+	for _, c := range bs.L {
+		if c.Kind != "list" {
+			break
+		}
+		cs = append(cs, shapeOfBS(c))
+	}
+	return "(" + strings.Join(cs, " ") + ")"
+}
+
+// sameUnfolded: base64 text may be folded anew by the writer (76-column lines): equal up to line breaks
+func sameUnfolded(a, b, enc string) bool {
+	if enc != "base64" {
+		return false
+	}
+	strip := func(s string) string { return strings.NewReplacer("\r", "", "\n", "").Replace(s) }
+	return strip(a) == strip(b)
 }
 
 func envelope(p *probe, env *sx.V, viol func(string, string)) {
